@@ -17,7 +17,7 @@ import (
 
 func (f *Frame) siteBlock(chans []string, pos token.Pos, what string) {
 	rc := f.rootContract()
-	if rc == nil {
+	if rc == nil || f.inHelper() {
 		return
 	}
 	for _, s := range rc.Sites {
@@ -86,7 +86,7 @@ func init() {
 func (f *Frame) siteSend(ch ssa.Value, c, v Val, pos token.Pos, cond string) {
 	vc := f.vc
 	rc := f.rootContract()
-	if rc != nil {
+	if rc != nil && !f.inHelper() {
 		for _, s := range rc.Sites {
 			if s.Kind != "send" {
 				continue
@@ -243,3 +243,7 @@ func init() {
 		return Bound{V: Val{t, "Bool"}, T: types.Typ[types.Bool]}, nil
 	}
 }
+
+// inHelper: this frame executes a top-level helper function in place of a call (not the function under contract and
+// not one of its closures); the site conditions of the enclosing contract do not apply to it.
+func (f *Frame) inHelper() bool { return f.parent != nil && f.fn.Parent() == nil }
